@@ -57,6 +57,9 @@ def check_map(imap, data, idcol, where, before_rows=None):
             seen.add(v)
             distinct.append(v)
     keys = list(imap.index)
+    counts = {}
+    for v in ids_col:
+        counts[v] = counts.get(v, 0) + 1
     # individuals <-> map rows: bijection
     if len(set(keys)) != len(keys):
         out.append(('panel-map-individuals-not-bijective', f'{where}: an id appears twice among the map rows: {keys[:20]}'))
@@ -73,7 +76,7 @@ def check_map(imap, data, idcol, where, before_rows=None):
         blk = ids_col[a:b + 1]
         if any(v != key for v in blk):
             out.append(('panel-map-row-carries-other-id', f'{where}: interval [{a},{b}] of individual {key!r} holds rows with ids {blk[:10]}'))
-        cnt = sum(1 for v in ids_col if v == key)
+        cnt = counts.get(key, 0)
         if cnt != b - a + 1:
             out.append(('panel-map-interval-misses-rows',
                         f'{where}: individual {key!r} has {cnt} rows in the table but the interval [{a},{b}] holds {b - a + 1}'))
